@@ -70,7 +70,55 @@ func entityMustCall(r *core.Run) {
 		}
 		if core.ExprStr(ifs.Cond) == "err != nil" && len(ifs.Body.List) == 1 {
 			if _, isRet := ifs.Body.List[0].(*ast.ReturnStmt); isRet {
-				order[s.Sel.Name] = i + 1
+				order[s.Sel.Name] = (i + 1) * 1000
+			}
+		}
+	}
+	// the same sequence spelled as a table: `for _, step := range []func(…) error{ent.acceptKeys, …} { if err := step(v); err != nil { return err } }`
+	for i, st := range fd.Body.List {
+		rs, ok := st.(*ast.RangeStmt)
+		if !ok || rs.Value == nil {
+			continue
+		}
+		cl, ok := core.Unparen(rs.X).(*ast.CompositeLit)
+		if !ok {
+			// a local holding the table: `steps := []func(…) error{…}` defined once
+			if id, isID := core.Unparen(rs.X).(*ast.Ident); isID {
+				defs := 0
+				for _, st2 := range fd.Body.List {
+					if as, isAs := st2.(*ast.AssignStmt); isAs && len(as.Lhs) == 1 && len(as.Rhs) == 1 && core.ExprStr(as.Lhs[0]) == id.Name {
+						defs++
+						cl, _ = core.Unparen(as.Rhs[0]).(*ast.CompositeLit)
+					}
+				}
+				if defs != 1 {
+					cl = nil
+				}
+			}
+			if cl == nil {
+				continue
+			}
+		}
+		stepVar := core.ExprStr(rs.Value)
+		// the body calls the step and returns on error, with nothing that could skip it
+		bodyOK := false
+		if len(rs.Body.List) == 1 {
+			if ifs, ok := rs.Body.List[0].(*ast.IfStmt); ok && ifs.Init != nil && core.ExprStr(ifs.Cond) == "err != nil" && len(ifs.Body.List) == 1 {
+				if as, ok := ifs.Init.(*ast.AssignStmt); ok && len(as.Rhs) == 1 {
+					if c, ok := as.Rhs[0].(*ast.CallExpr); ok && core.ExprStr(c.Fun) == stepVar {
+						if _, isRet := ifs.Body.List[0].(*ast.ReturnStmt); isRet {
+							bodyOK = true
+						}
+					}
+				}
+			}
+		}
+		if !bodyOK {
+			continue
+		}
+		for j, el := range cl.Elts {
+			if s, ok := core.Unparen(el).(*ast.SelectorExpr); ok && strings.HasPrefix(s.Sel.Name, "accept") {
+				order[s.Sel.Name] = (i+1)*1000 + j
 			}
 		}
 	}
